@@ -121,7 +121,7 @@ func c14CheckAll(srv *drive.Srv, reg c14Registry) string {
 }
 
 func runC14(run *common.Run) {
-	run.Rule = "case = one program on one engine: 40-120 admin and data requests over 2 parents (one a string prefix of the other) x 3 table ids: CreateTable with families and GC rules, DeleteTable, re-create, ModifyColumnFamilies with 1-4 modifications (create/update/drop, a failing one at any position, create-then-drop and drop-then-create of one id), DropRowRange (12 prefixes incl. empty, whole keys, ...\\xff, no match; delete-all), MutateRow. After EVERY request: ListTables per parent, GetTable + full scan of every live table, NotFound probes (GetTable, MutateRow, ReadRows) on every non-existent name, all compared with a registry + data model. Non-trivial = program contained at least three of: a failed multi-modification request, a family drop that removed cells, a prefix drop that removed some but not all rows, a delete-and-re-create of a table (each counted separately in 'observed'); distinct by program x engine."
+	run.Rule = "case = one program on one engine: 40-120 admin and data requests over 2 parents (one a string prefix of the other) x 3 table ids: CreateTable with families and GC rules, DeleteTable, re-create, ModifyColumnFamilies with 1-4 modifications (create/update/drop, a failing one at any position, create-then-drop and drop-then-create of one id), DropRowRange (12 prefixes incl. empty, whole keys, ...\\xff, no match; delete-all), MutateRow. After EVERY request: ListTables per parent, GetTable + full scan of every live table, NotFound probes (GetTable, MutateRow, ReadRows) on every non-existent name, all compared with a registry + data model. Part 'big': prefix drops of 1 / 10 / 100 / 1000+ rows (incl. prefixes made of 0xff bytes), a family drop, a drop-and-re-create of one family in one request and a delete-all on a table of 1500-3000 rows, whole table compared after every request. Non-trivial = program contained at least three of: a failed multi-modification request, a family drop that removed cells, a prefix drop that removed some but not all rows, a delete-and-re-create of a table (each counted separately in 'observed'); distinct by program x engine."
 	run.Assumptions = []string{"DropRowRange with an empty prefix may be rejected or remove every row", "ModifyColumnFamilies error codes are not compared (any non-OK), CreateTable on an existing table must be AlreadyExists, requests on missing tables NotFound"}
 	j := common.NewJournal("C14")
 	nprog := run.N(150, 1500)
@@ -139,6 +139,147 @@ func runC14(run *common.Run) {
 		c14Program(run, prog, engine, i)
 		j.End(i % 64)
 	})
+	if run.WantSub("big") {
+		nbig := run.N(4, 40)
+		common.Parallel(nbig*3, workers(), func(i int) {
+			prog, engine := i/3, drive.Engines[i%3]
+			if !run.Want("big", i) || run.TooMany() || (engine == "ldbdisk" && !drive.DiskEngineAvailable()) {
+				return
+			}
+			j.Begin(i%64, fmt.Sprintf("C14 big case=%d engine=%s", i, engine))
+			c14Big(run, prog, engine, i)
+			j.End(i % 64)
+		})
+	}
+}
+
+// c14Big: the same admin requests on a table of 1500-3000 rows (several response messages, several iterator
+// batches): prefix drops of 1, 10, 100 and 1000+ rows, prefixes made of 0xff bytes, a family drop and a
+// drop-and-re-create of a family in one request, a delete-all; after every request the whole table is compared.
+func c14Big(run *common.Run, prog int, engine string, idx int) {
+	r := run.Rand("C14.big", prog)
+	srv, err := drive.Start(engine, gen.BaseClock, "")
+	if err != nil {
+		run.Violation("big", idx, "cannot start server: "+err.Error(), nil)
+		return
+	}
+	defer srv.Close(true)
+	name := drive.MustTable(srv.Admin, "big", "f", "f1", "g")
+	m := model.NewTable("f", "f1", "g")
+	var steps []string
+	fail := func(what string) {
+		run.Violation("big", idx, what, map[string]any{"engine": engine, "steps": steps})
+	}
+	N := r.Range(1500, 3000)
+	keyOf := func(i int) string {
+		switch {
+		case i%97 == 0:
+			return fmt.Sprintf("\xff\xff%04d", i)
+		case i%31 == 0:
+			return fmt.Sprintf("\xff%04d", i)
+		}
+		return fmt.Sprintf("r%04d", i)
+	}
+	var entries []drive.Entry
+	for i := 0; i < N; i++ {
+		muts := []model.Mut{{Kind: model.SetCell, Fam: common.Pick(r, []string{"f", "f1", "g"}), Qual: "q", TS: 1000, Val: fmt.Sprint("v", i)}}
+		if i%3 == 0 {
+			muts = append(muts, model.Mut{Kind: model.SetCell, Fam: "g", Qual: "only-g", TS: 2000, Val: "g"})
+		}
+		_, nr := m.Apply(keyOf(i), muts, gen.BaseClock)
+		m.Commit(keyOf(i), nr)
+		entries = append(entries, drive.Entry{Key: keyOf(i), Muts: muts})
+		if len(entries) == 500 || i == N-1 {
+			if st, _, _ := drive.MutateRows(srv.Data, name, entries); !st.OK() {
+				fail("set-up failed: " + st.String())
+				return
+			}
+			entries = nil
+		}
+	}
+	dropPrefix := func(prefix string) bool {
+		ctx, cancel := drive.Ctx()
+		_, err := srv.Admin.DropRowRange(ctx, &btapb.DropRowRangeRequest{Name: name, Target: &btapb.DropRowRangeRequest_RowKeyPrefix{RowKeyPrefix: []byte(prefix)}})
+		cancel()
+		steps = append(steps, fmt.Sprintf("DropRowRange(%q) -> %v", prefix, err))
+		if err != nil {
+			fail("DropRowRange failed: " + err.Error())
+			return false
+		}
+		removed := 0
+		for k := range m.Rows {
+			if strings.HasPrefix(k, prefix) {
+				delete(m.Rows, k)
+				removed++
+			}
+		}
+		run.Max("max_rows_removed_by_one_prefix_drop", int64(removed))
+		if msg := checkTable(srv.Data, name, m); msg != "" {
+			fail("after " + steps[len(steps)-1] + ": " + trunc(msg, 500))
+			return false
+		}
+		return true
+	}
+	modify := func(desc string, mods []*btapb.ModifyColumnFamiliesRequest_Modification, apply func()) bool {
+		ctx, cancel := drive.Ctx()
+		_, err := srv.Admin.ModifyColumnFamilies(ctx, &btapb.ModifyColumnFamiliesRequest{Name: name, Modifications: mods})
+		cancel()
+		steps = append(steps, fmt.Sprintf("ModifyColumnFamilies(%s) -> %v", desc, err))
+		if err != nil {
+			fail("ModifyColumnFamilies failed: " + err.Error())
+			return false
+		}
+		apply()
+		if msg := checkTable(srv.Data, name, m); msg != "" {
+			fail("after " + steps[len(steps)-1] + ": " + trunc(msg, 500))
+			return false
+		}
+		return true
+	}
+	dropFam := func(f string) {
+		delete(m.Families, f)
+		for key, row := range m.Rows {
+			delete(row, f)
+			m.Commit(key, row)
+		}
+	}
+	ops := []func() bool{
+		func() bool { return dropPrefix(fmt.Sprintf("r%04d", r.Intn(N))) },
+		func() bool { return dropPrefix(fmt.Sprintf("r%03d", r.Intn(N/10))) },
+		func() bool { return dropPrefix(fmt.Sprintf("r%02d", r.Intn(N/100))) },
+		func() bool { return dropPrefix("r1") },
+		func() bool { return dropPrefix("\xff\xff") },
+		func() bool { return dropPrefix("\xff") },
+		func() bool { return dropPrefix("nomatch") },
+		func() bool {
+			return modify("drop f1", []*btapb.ModifyColumnFamiliesRequest_Modification{{Id: "f1", Mod: &btapb.ModifyColumnFamiliesRequest_Modification_Drop{Drop: true}}}, func() { dropFam("f1") })
+		},
+		func() bool {
+			return modify("drop g, create g", []*btapb.ModifyColumnFamiliesRequest_Modification{{Id: "g", Mod: &btapb.ModifyColumnFamiliesRequest_Modification_Drop{Drop: true}}, {Id: "g", Mod: &btapb.ModifyColumnFamiliesRequest_Modification_Create{Create: &btapb.ColumnFamily{}}}}, func() { dropFam("g"); m.Families["g"] = nil })
+		},
+	}
+	common.Shuffle(r, ops)
+	for _, op := range ops {
+		if !op() {
+			return
+		}
+	}
+	// SampleRowKeys must still describe the table, and a delete-all empties it
+	ctx, cancel := drive.Ctx()
+	_, err = srv.Admin.DropRowRange(ctx, &btapb.DropRowRangeRequest{Name: name, Target: &btapb.DropRowRangeRequest_DeleteAllDataFromTable{DeleteAllDataFromTable: true}})
+	cancel()
+	if err != nil {
+		fail("DropRowRange(all) failed: " + err.Error())
+		return
+	}
+	m.Rows = map[string]map[string]map[string]map[int64]string{}
+	if msg := checkTable(srv.Data, name, m); msg != "" {
+		fail("after DropRowRange(all): " + trunc(msg, 500))
+		return
+	}
+	run.Case(common.Hash64("big", engine, fmt.Sprint(steps)), true)
+	run.Count("big_table_programs", 1)
+	run.Max("max_rows_in_big_table", int64(N))
 }
 
 func c14Program(run *common.Run, prog int, engine string, idx int) {
